@@ -19,4 +19,19 @@ if [ "$TIER" = thorough ]; then
   # a failure means the checker is broken, not the repository
   (cd checker && go test -count=1 ./internal/an >/dev/null 2>&1) || { echo "bipcheck self-test failed: the analyser is broken (cd /verif/checker && go test ./internal/an)"; exit 2; }
 fi
-exec "$BIN" -repo "${VERIF_REPO:-/repo}" -property "$ID" -tier "$TIER" -out /verif/evidence -known /verif/known_findings.json
+LOG=$(mktemp "${TMPDIR:-/tmp}/bipcheck-$ID-XXXXXX")
+"$BIN" -repo "${VERIF_REPO:-/repo}" -property "$ID" -tier "$TIER" -out /verif/evidence -known /verif/known_findings.json >"$LOG" 2>&1
+rc=$?
+cat "$LOG"
+if [ "$rc" -ne 0 ] && [ "$rc" -ne 1 ]; then
+  # the analyser itself ended abnormally (a fatal runtime error is not something it can turn into an
+  # obligation): nothing was decided on this tree, which counts as a failure of the property's check
+  mkdir -p /verif/evidence
+  cp "$LOG" "/verif/evidence/$ID.abnormal.log"
+  rm -f "$LOG"
+  echo "bipcheck ended abnormally (exit $rc): property $ID is not decided on this tree"
+  echo "VIOLATION property=$ID replay=/verif/evidence/$ID.abnormal.log"
+  exit 1
+fi
+rm -f "$LOG"
+exit "$rc"
